@@ -3,6 +3,7 @@ package props
 import (
 	"bytes"
 	"fmt"
+	"sync"
 	"sync/atomic"
 	"time"
 
@@ -60,7 +61,7 @@ func init() {
 			"'never early' is one-sided: the start instant is read before Play/MultiPlay is called, so machine load can only delay sends, never make the check fire",
 			"sysex events in tracks are not constrained (the statement speaks of channel messages and meta events)",
 		},
-		Require: []string{"plays", "sends_observed", "same_tick_runs_ge_13", "cross_track_same_tick", "selections_proper_subset", "maps_without_default", "never_early_checks", "play_single_port", "replays_with_rerouted_map"},
+		Require: []string{"plays", "sends_observed", "same_tick_runs_ge_13", "cross_track_same_tick", "selections_proper_subset", "maps_without_default", "never_early_checks", "play_single_port", "replays_with_rerouted_map", "late_schedule_plays"},
 		Workers: 16,
 		Run:     runC12,
 	})
@@ -73,6 +74,7 @@ type c12Ev struct {
 }
 
 func runC12(c *mon.Ctx) {
+	runC12LateSchedule(c)
 	c.Each("files", c.N(300, 30_000), func(i int64, r *mon.Rand) {
 		nt := r.Range(1, 5)
 		res := int64(r.Pick(24, 96, 480))
@@ -365,6 +367,64 @@ func runC12(c *mon.Ctx) {
 			c.Sample("file", map[string]any{"tracks": nt, "playable_messages": len(truth), "bytes": mon.Hex(head(b, 100))})
 		}
 	})
+}
+
+// runC12LateSchedule plays a file whose last message is scheduled more than 2^32 microseconds (71.6 min)
+// after the start and watches the first 300 ms: the early messages must arrive, the late one must not.
+// The playing goroutine is left sleeping; it ends with the worker process.
+func runC12LateSchedule(c *mon.Ctx) {
+	c.Each("late-schedule", c.N(2, 8), func(i int64, r *mon.Rand) {
+		lateTicks := []uint32{830_000, 1_700_000, 900_000, 3_400_000, 826_000, 1_000_000, 2_000_000, 5_000_000}[i%8] // x 5208 us per tick at 96 tpq, 120 BPM
+		t0ev := []ref.EncEv{
+			{Ev: ref.Ev{Delta: 0, Msg: []byte{0xB0, 1, 1}}}, {Ev: ref.Ev{Delta: 2, Msg: []byte{0xB0, 1, 2}}}, {Ev: ref.Ev{Delta: 3, Msg: []byte{0xB0, 1, 3}}},
+			{Ev: ref.Ev{Delta: lateTicks, Msg: []byte{0xB0, 9, 99}}}, {Ev: ref.Ev{Delta: 1, Msg: []byte{0xB0, 9, 100}}}, {Ev: ref.Ev{Delta: 0, Msg: ref.EOT}}}
+		t1ev := []ref.EncEv{{Ev: ref.Ev{Delta: 1, Msg: []byte{0xB1, 2, 1}}}, {Ev: ref.Ev{Delta: 5, Msg: []byte{0xB1, 2, 2}}}, {Ev: ref.Ev{Delta: 0, Msg: ref.EOT}}}
+		b := (&ref.EncFile{Format: 1, Division: 96, NTracks: -1, Tracks: [][]ref.EncEv{t0ev, t1ev}}).Bytes(nil)
+		log := &playLog{}
+		var mu sync.Mutex
+		pa := &lockedOut{fakeOut: fakeOut{id: 0, log: log, open: true}, mu: &mu}
+		trd := smf.ReadTracksFrom(bytes.NewReader(b))
+		if trd.Error() != nil {
+			c.Violation("readtracks-error", trd.Error().Error(), nil, nil, nil)
+			return
+		}
+		sched := int64(lateTicks+5) * 5208
+		in := map[string]any{"file": mon.Hex(b), "late message scheduled at (us)": sched, "2^32 us": int64(1) << 32}
+		log.t0 = time.Now()
+		go func() {
+			defer func() { recover() }()
+			trd.Play(pa)
+		}()
+		time.Sleep(300 * time.Millisecond)
+		mu.Lock()
+		recs := append([]sendRec(nil), log.recs...)
+		mu.Unlock()
+		c.Count("late_schedule_plays", 1)
+		early := 0
+		for _, s := range recs {
+			if len(s.data) == 3 && s.data[1] == 9 {
+				c.Violation("early", fmt.Sprintf("message % X scheduled %d us (more than 2^32 us) after the start was sent %d us after the start", s.data, sched, s.at.Microseconds()), in, sched, s.at.Microseconds())
+				return
+			}
+			early++
+		}
+		if early != 5 {
+			c.Violation("missing-send", fmt.Sprintf("%d of the 5 messages scheduled within the first 60 ms arrived within 300 ms", early), in, 5, early)
+		}
+		c.DistinctBytes(b)
+	})
+}
+
+// lockedOut is a fakeOut whose log may be read while a play is still running.
+type lockedOut struct {
+	fakeOut
+	mu *sync.Mutex
+}
+
+func (f *lockedOut) Send(b []byte) error {
+	f.mu.Lock()
+	defer f.mu.Unlock()
+	return f.fakeOut.Send(b)
 }
 
 func keysOf(m map[int]drivers.Out) map[int]int {
